@@ -282,7 +282,7 @@ func cmdCheck(args []string) int {
 			retry = append(retry, w)
 		}
 	}
-	if len(retry) > 0 && len(retry) <= 6 && *only == "" {
+	if len(retry) > 0 && len(retry) <= 6 && *only == "" && os.Getenv("VERIF_NO_RETRY") == "" {
 		for _, w := range retry {
 			r := SolveHint(w.Ctx.Query(w.O, false), 150*time.Second, scratch, false, hints[w.Full])
 			if r.Answer == "unsat" || r.Answer == "sat" {
